@@ -94,8 +94,10 @@ def one_recording(c, nsub, req, stem_in, stem_out, in_blocks, bpf_in, ncards, bl
     for a in range(na):
         row = []
         for p in range(npol):
-            f = sv.PolyphaseFilterbank(num_taps=M, num_branches=P)
-            if lazy:
+            f = sv.PolyphaseFilterbank(num_taps=M, num_branches=P, window_fn=c.get('window', 'hamming'))
+            if lazy == 'default':
+                pass        # the library's own default estimate (unseeded, default size), made lazily by the backend
+            elif lazy:
                 # leave the estimate to the backend (it is made lazily, in the middle of the first sub-block step);
                 # only the seed and size of that internal estimate are pinned so that the run is reproducible
                 def _est(factor=10000, seed=None, _f=f, _s=seed + 10 * a + p):
@@ -225,13 +227,24 @@ def one_recording(c, nsub, req, stem_in, stem_out, in_blocks, bpf_in, ncards, bl
                         return False
                     stds0[a][p] = np.array(fbs[a][p].channelized_stds, copy=True)
                 exp_cs = stds0[a][p] * (dig[a][p].target_std if c['digitize'] else 1.0)
+                # "scaled as if embedded in unit-variance noise": the estimate the gain is built on must be the channelised
+                # deviation of unit-variance noise for THIS filterbank (window included), which follows from the definition.
+                # (sampling error of the estimate: 1/sqrt(2 n) relative, n = factor * channels; acceptance band >= 7 sigma)
+                ana = np.array(vharness.unit_noise_channel_stds(M, P, c.get('window', 'hamming')))
+                nvals = (10000 if lazy == 'default' else 200) * (P // 2)
+                band = 7.0 / np.sqrt(2.0 * nvals) + 2e-3
+                if np.any(np.abs(stds0[a][p] / ana - 1.0) > band):
+                    V('unit_noise_gain', '%s antenna %d pol %d: channelised unit-noise deviations used for the gain are %s; the %s filterbank '
+                      'gives %s for unit-variance noise (ratio %s, acceptance +-%.3f)' % (tag, a, p, stds0[a][p], c.get('window', 'hamming'), ana,
+                                                                                       stds0[a][p] / ana, band))
+                    return False
                 # the synthetic stream through digitiser and filterbank: FIR+DFT definition over the WHOLE observed
                 # stream of this recording (nothing about caches / sub-blocks assumed)
                 if c['digitize']:
                     pfb_in = np.concatenate([cl['q'] for cl in dig[a][p].calls])
                 else:
                     pfb_in = np.concatenate([arr[a][p] for _, _, arr in src.log])
-                ref = vharness.pfb_definition(pfb_in, M, P, vharness.ref_window(M, P, 'hamming'))[:, c['start_chan']:c['start_chan'] + nc]
+                ref = vharness.pfb_definition(pfb_in, M, P, vharness.ref_window(M, P, c.get('window', 'hamming')))[:, c['start_chan']:c['start_chan'] + nc]
                 syn_in = np.concatenate([calls[j]['x'] for j in range(0, len(calls), 2)])
                 if syn_in.shape != ref.shape:
                     V('spectra_count', '%s: %s channelised synthetic spectra, definition gives %s' % (tag, syn_in.shape, ref.shape))
@@ -347,6 +360,11 @@ def case_input(c):
         except Exception:
             pass
         in_blocks, bpf_in, ncards, blocsize = write_input(c, stem_in, seed)
+        if c.get('lazy') == 'default':
+            # deterministic process history: a same-shaped filterbank with the DEFAULT window has already made an unseeded
+            # default-size estimate in this process
+            import setigen.voltage as sv
+            sv.PolyphaseFilterbank(num_taps=M, num_branches=P).estimate_channelized_stds()
         r = c['T'] // M
         n_in = len(in_blocks)
         reqs = [('num_blocks', None), ('obs_length', None), ('num_blocks', n_in), ('num_blocks', n_in + 2), ('obs_length', n_in + 2)]
@@ -389,6 +407,13 @@ def run(ctx):
                                                           layout=list(layout), content=content, digitize=digitize, T=T,
                                                           nchans=(4 if bits == 8 else 3) if nants == 1 else 2, start_chan=0 if bits == 8 else 1,
                                                           recordings=2, seed=ctx.seed))
+    # sub-box: the library's own default (unseeded, lazily made) noise estimate, for three window functions
+    for window in ('hamming', 'boxcar', 'hann'):
+        for digitize in (True, False):
+            for bits in ((8, 4) if Tt else (8,)):
+                cases.append(dict(bits=bits, npol=1, nants=1, directio=0, aligned=False, lazy='default', window=window,
+                                  layout=[2, 2], content='tone', digitize=digitize, T=4, nchans=4, start_chan=0,
+                                  recordings=1, seed=ctx.seed))
     ctx.pmap(case_input, cases, chunk=1)
     return ctx.finish(
         rule='one case per input recording written by the independent GUPPI writer (bits x pols x antennas x DIRECTIO x header '
